@@ -145,7 +145,16 @@ impl CommandAnalyzer {
                 });
 
                 commands.extend(file_commands);
-                self.discovered_events.extend(file_events);
+                // One listener per event name: an event emitted from several places is one event
+                for event in file_events {
+                    if !self
+                        .discovered_events
+                        .iter()
+                        .any(|known| known.event_name == event.event_name)
+                    {
+                        self.discovered_events.push(event);
+                    }
+                }
 
                 // Build type definition index from this file
                 self.index_type_definitions(&parsed_file.ast, parsed_file.path.as_path());
